@@ -81,6 +81,7 @@ void h_ccm_decrypt(void)
 	check_mac_input(out);                       /* the MAC is over the decrypted payload */
 	uint8_t A0[16]; memset(A0, 0, 16); A0[0] = (uint8_t)(15 - IVLEN - 1); memcpy(A0 + 1, iv, IVLEN);
 	int match = 1; for (int i = 0; i < TAGLEN; i++) if ((uint8_t)(m_out[0][i] ^ A0[i] ^ g_mask[i]) != tag[i]) match = 0;
+	if (ret == 1) V_COVER("ccm accept");
 	CHECK((ret == 1) == match, "accept <=> every one of the taglen tag bytes equals MAC xor E(A0)");
 	V_REACH();
 }
